@@ -50,8 +50,8 @@ type smutex struct {
 	// excludes new readers (also a reader that already holds a read lock and
 	// asks again: the documented recursive-read-lock deadlock).
 	pendingW map[int]bool
-	relVC   []int // clock of the last write release
-	rdVC    []int // join of the clocks of read releases since the last write acquire
+	relVC    []int // clock of the last write release
+	rdVC     []int // join of the clocks of read releases since the last write acquire
 }
 
 // SeamEvent is one call through an instrumented seam.
